@@ -497,6 +497,10 @@ def main(prop, tier, replay=None):
         for key, n in sorted(known.items()):
             print(f"KNOWN-FINDING: property={prop} {known_examples[key]['what']} "
                   f"[{key}; {n} generated cases excluded]")
+        # one line per listed finding on every run: a finding that this run's cases did not meet is still listed
+        for e in Findings(prop).entries:
+            if e.get("id") not in known:
+                print(f"KNOWN-FINDING: property={prop} {e['what']} [{e.get('id')}; not met by the cases of this run]")
 
         coverage = {
             "evaluations": int(evaluations),
